@@ -37,11 +37,35 @@ fn render<S: BDDSymbol>(b: &Rc<BDD<S>>, f: char) -> Result<String, String> {
     String::from_utf8(buf).map_err(|_| "DOT output is not UTF-8".to_string())
 }
 
+/// Leaves of a read-back decision graph: nodes without outgoing edges labelled true / false
+/// (node identifiers are an implementation detail and are not interpreted).
+struct Leaves {
+    t: Option<String>,
+    f: Option<String>,
+}
+
+fn leaves(g: &Graph, labels: &HashMap<String, String>) -> Result<Leaves, String> {
+    let mut l = Leaves { t: None, f: None };
+    for (id, label) in &g.nodes {
+        if g.out_edges(id).is_empty() {
+            match label.as_str() {
+                "true" if l.t.is_none() => l.t = Some(id.clone()),
+                "false" if l.f.is_none() => l.f = Some(id.clone()),
+                "true" | "false" => return Err(format!("two `{}` leaves are declared", label)),
+                other => return Err(format!("node {} labelled `{}` has no outgoing edge", id, other)),
+            }
+        }
+    }
+    let _ = labels;
+    Ok(l)
+}
+
 /// Evaluate a read-back decision graph. `missing` = leaf value assumed for a missing edge
 /// (filtered exports omit the opposite leaf and the edges into it).
 fn eval_graph(
     g: &Graph,
     labels: &HashMap<String, String>,
+    lv: &Leaves,
     root: &str,
     names: &[String],
     idx: usize,
@@ -49,10 +73,10 @@ fn eval_graph(
 ) -> Result<bool, String> {
     let mut cur = root.to_string();
     for _ in 0..10_000 {
-        if cur == "n_true" {
+        if Some(&cur) == lv.t.as_ref() {
             return Ok(true);
         }
-        if cur == "n_false" {
+        if Some(&cur) == lv.f.as_ref() {
             return Ok(false);
         }
         let label = labels.get(&cur).ok_or_else(|| format!("undeclared node {}", cur))?;
@@ -71,37 +95,41 @@ fn eval_graph(
     Err("cycle in the exported graph".into())
 }
 
+fn single_root(g: &Graph, lv: &Leaves) -> Result<String, String> {
+    let r: Vec<&str> = g
+        .roots()
+        .into_iter()
+        .filter(|r| Some(&r.to_string()) != lv.t.as_ref() && Some(&r.to_string()) != lv.f.as_ref())
+        .collect();
+    if r.len() != 1 {
+        return Err(format!("expected one root among the test nodes, found {}", r.len()));
+    }
+    Ok(r[0].to_string())
+}
+
 /// Check the three exports of one diagram whose table over `names` (by label) is `tt`.
 pub fn check_bdd_exports<S: BDDSymbol>(b: &Rc<BDD<S>>, names: &[String], tt: &TT) -> Result<(), String> {
     let any_text = render(b, 'a')?;
     let any = dot::parse(&any_text)?;
-    if any.name != "bdd_graph" {
-        return Err(format!("graph is named {:?}", any.name));
-    }
     let labels = any.well_formed()?;
-    let tests: Vec<&String> = labels.keys().filter(|id| *id != "n_true" && *id != "n_false").collect();
+    let lv = leaves(&any, &labels)?;
+    let ntests = any.nodes.len() - usize::from(lv.t.is_some()) - usize::from(lv.f.is_some());
     let sh = plain::invariants(b);
-    if tests.len() != sh.distinct_tests {
+    if ntests != sh.distinct_tests {
         return Err(format!(
             "export declares {} test nodes, the diagram has {} distinct sub-diagrams",
-            tests.len(),
-            sh.distinct_tests
+            ntests, sh.distinct_tests
         ));
     }
-    if labels.get("n_true").map(|l| l != "true").unwrap_or(false) || labels.get("n_false").map(|l| l != "false").unwrap_or(false) {
-        return Err("leaf labels are not true/false".into());
-    }
-    for t in &tests {
-        let outs = any.out_edges(t);
+    for (id, _) in &any.nodes {
+        if Some(id) == lv.t.as_ref() || Some(id) == lv.f.as_ref() {
+            continue;
+        }
+        let outs = any.out_edges(id);
         let nt = outs.iter().filter(|(l, _)| *l == "T").count();
         let nf = outs.iter().filter(|(l, _)| *l == "F").count();
         if nt != 1 || nf != 1 || outs.len() != 2 {
-            return Err(format!("test node {} has {} T and {} F edges", t, nt, nf));
-        }
-    }
-    for (a, _, _) in &any.edges {
-        if a == "n_true" || a == "n_false" {
-            return Err("a leaf has an outgoing edge".into());
+            return Err(format!("test node {} has {} T and {} F edges ({} in total)", id, nt, nf, outs.len()));
         }
     }
     let mut dedup: HashSet<&(String, String, String)> = HashSet::new();
@@ -110,27 +138,17 @@ pub fn check_bdd_exports<S: BDDSymbol>(b: &Rc<BDD<S>>, names: &[String], tt: &TT
             return Err(format!("edge {:?} is written twice", e));
         }
     }
-    let roots = any.roots();
-    let root: String = match b.as_ref() {
-        BDD::True => "n_true".into(),
-        BDD::False => "n_false".into(),
-        _ => {
-            let r: Vec<&&str> = roots.iter().filter(|r| **r != "n_true" && **r != "n_false").collect();
-            if r.len() != 1 {
-                return Err(format!("expected one root, found {:?}", roots));
-            }
-            r[0].to_string()
+    let root: String = if b.is_const() {
+        if any.nodes.len() != 1 || !any.edges.is_empty() {
+            return Err(format!("a leaf diagram exports {} nodes and {} edges", any.nodes.len(), any.edges.len()));
         }
+        let want = if b.is_true() { &lv.t } else { &lv.f };
+        want.clone().ok_or("a leaf diagram does not export its leaf")?
+    } else {
+        single_root(&any, &lv)?
     };
-    if b.is_const() {
-        let want: BTreeSet<&str> = [if b.is_true() { "n_true" } else { "n_false" }].into_iter().collect();
-        let got: BTreeSet<&str> = labels.keys().map(|s| s.as_str()).collect();
-        if got != want {
-            return Err(format!("a leaf diagram exports nodes {:?}", got));
-        }
-    }
     for idx in 0..tt.len() {
-        let got = eval_graph(&any, &labels, &root, names, idx, None)?;
+        let got = eval_graph(&any, &labels, &lv, &root, names, idx, None)?;
         if got != tt.get(idx) {
             return Err(format!(
                 "the exported graph evaluates to {} under assignment {:#b}, the diagram to {}",
@@ -140,43 +158,92 @@ pub fn check_bdd_exports<S: BDDSymbol>(b: &Rc<BDD<S>>, names: &[String], tt: &TT
             ));
         }
     }
-    // filtered exports: the Any graph minus the opposite leaf and exactly the edges into it
-    for (f, omitted) in [('t', "n_false"), ('f', "n_true")] {
+    // filtered exports: the unfiltered graph minus the opposite leaf and minus exactly the edges
+    // into it (compared up to renaming of node identifiers)
+    for (f, omitted_is_true) in [('t', false), ('f', true)] {
         let text = render(b, f)?;
         let g = dot::parse(&text)?;
-        g.well_formed().map_err(|e| format!("filter {}: {}", f, e))?;
-        let want_nodes: BTreeSet<(String, String)> =
-            any.nodes.iter().filter(|(id, _)| id != omitted).cloned().collect();
-        let got_nodes: BTreeSet<(String, String)> = g.nodes.iter().cloned().collect();
-        if g.nodes.len() != got_nodes.len() {
-            return Err(format!("filter {}: a node is declared twice", f));
+        let gl = g.well_formed().map_err(|e| format!("filter {}: {}", f, e))?;
+        let glv = leaves_filtered(&g)?;
+        let omitted_any = if omitted_is_true { &lv.t } else { &lv.f };
+        let (omitted_here, kept_here, kept_any) = if omitted_is_true {
+            (&glv.t, &glv.f, &lv.f)
+        } else {
+            (&glv.f, &glv.t, &lv.t)
+        };
+        if omitted_here.is_some() {
+            return Err(format!("filter {}: the {} leaf is still declared", f, if omitted_is_true { "true" } else { "false" }));
         }
-        if got_nodes != want_nodes {
+        if kept_here.is_some() != kept_any.is_some() {
+            return Err(format!("filter {}: the kept leaf is declared {} but {} in the unfiltered export", f, kept_here.is_some(), kept_any.is_some()));
+        }
+        let mut want_labels: Vec<&String> = any
+            .nodes
+            .iter()
+            .filter(|(id, _)| Some(id) != lv.t.as_ref() && Some(id) != lv.f.as_ref())
+            .map(|(_, l)| l)
+            .collect();
+        let mut got_labels: Vec<&String> = g
+            .nodes
+            .iter()
+            .filter(|(id, _)| Some(id) != glv.t.as_ref() && Some(id) != glv.f.as_ref())
+            .map(|(_, l)| l)
+            .collect();
+        want_labels.sort();
+        got_labels.sort();
+        if want_labels != got_labels {
+            return Err(format!("filter {}: test nodes {:?} differ from the unfiltered export's {:?}", f, got_labels, want_labels));
+        }
+        let into_omitted = any.edges.iter().filter(|(_, _, t)| Some(t) == omitted_any.as_ref()).count();
+        if g.edges.len() + into_omitted != any.edges.len() {
             return Err(format!(
-                "filter {}: nodes differ from the unfiltered export minus {}: extra {:?}, missing {:?}",
+                "filter {}: {} edges written, expected the unfiltered {} minus the {} edges into the omitted leaf",
                 f,
-                omitted,
-                got_nodes.difference(&want_nodes).collect::<Vec<_>>(),
-                want_nodes.difference(&got_nodes).collect::<Vec<_>>()
+                g.edges.len(),
+                any.edges.len(),
+                into_omitted
             ));
         }
-        let want_edges: BTreeSet<(String, String, String)> =
-            any.edges.iter().filter(|(_, _, b)| b != omitted).cloned().collect();
-        let got_edges: BTreeSet<(String, String, String)> = g.edges.iter().cloned().collect();
-        if g.edges.len() != got_edges.len() {
-            return Err(format!("filter {}: an edge is written twice", f));
+        let mut dd: HashSet<&(String, String, String)> = HashSet::new();
+        for e in &g.edges {
+            if !dd.insert(e) {
+                return Err(format!("filter {}: edge {:?} is written twice", f, e));
+            }
         }
-        if got_edges != want_edges {
-            return Err(format!(
-                "filter {}: edges differ from the unfiltered export minus the edges into {}: extra {:?}, missing {:?}",
-                f,
-                omitted,
-                got_edges.difference(&want_edges).collect::<Vec<_>>(),
-                want_edges.difference(&got_edges).collect::<Vec<_>>()
-            ));
+        if b.is_const() {
+            continue;
+        }
+        let groot = single_root(&g, &glv)?;
+        for idx in 0..tt.len() {
+            let got = eval_graph(&g, &gl, &glv, &groot, names, idx, Some(omitted_is_true))?;
+            if got != tt.get(idx) {
+                return Err(format!(
+                    "filter {}: reading a missing edge as the omitted leaf, the graph evaluates to {} under {:#b}, the diagram to {}",
+                    f,
+                    got,
+                    idx,
+                    tt.get(idx)
+                ));
+            }
         }
     }
     Ok(())
+}
+
+/// leaves of a filtered export: a node labelled true/false without outgoing edges AND
+/// with the other test nodes keeping at least one edge
+fn leaves_filtered(g: &Graph) -> Result<Leaves, String> {
+    let mut l = Leaves { t: None, f: None };
+    for (id, label) in &g.nodes {
+        if g.out_edges(id).is_empty() {
+            match label.as_str() {
+                "true" if l.t.is_none() => l.t = Some(id.clone()),
+                "false" if l.f.is_none() => l.f = Some(id.clone()),
+                _ => return Err(format!("filtered export: node {} (`{}`) has no outgoing edge", id, label)),
+            }
+        }
+    }
+    Ok(l)
 }
 
 pub fn check_fun(f: &Fun) -> Check {
@@ -425,8 +492,8 @@ pub fn check_formula(text: &str, via_cli: bool) -> Check {
             let reference_table = rsem::table(&parsed.ast, &idents).map_err(|e| v(format!("HARNESS: {:?}", e)))?;
             let scratch = cli::Scratch::new();
             for (flag, f) in [("", 'a'), ("t", 't'), ("f", 'f')] {
-                let dpath = scratch.path(&format!("d{}.dot", f));
-                let ppath = scratch.path(&format!("p{}.dot", f));
+                let dpath = scratch.stale(&format!("d{}.dot", f));
+                let ppath = scratch.stale(&format!("p{}.dot", f));
                 let mut args = vec![
                     format!("--evaluate={}", text),
                     "-d".to_string(),
@@ -445,43 +512,27 @@ pub fn check_formula(text: &str, via_cli: bool) -> Check {
                 let d = std::fs::read_to_string(&dpath).map_err(|e| v(format!("-d file: {}", e)))?;
                 let p = std::fs::read_to_string(&ppath).map_err(|e| v(format!("-p file: {}", e)))?;
                 check_tree_dot(&p, &parsed.ast).map_err(|e| v(format!("-p file: {}", e)))?;
-                // the -d file under filter f: same shape rules as the API export
+                // the -d file under filter f: same rules as the API export
                 let g = dot::parse(&d).map_err(|e| v(format!("-d file: {}", e)))?;
                 let labels = g.well_formed().map_err(|e| v(format!("-d file: {}", e)))?;
-                let tests = labels.keys().filter(|id| *id != "n_true" && *id != "n_false").count();
+                let glv = if f == 'a' { leaves(&g, &labels) } else { leaves_filtered(&g) }.map_err(|e| v(format!("-d file: {}", e)))?;
+                let tests = g.nodes.len() - usize::from(glv.t.is_some()) - usize::from(glv.f.is_some());
                 let sh = plain::invariants(&r);
                 if tests != sh.distinct_tests {
                     return Err(v(format!("-d file declares {} test nodes, expected {}", tests, sh.distinct_tests)));
                 }
-                let omitted = match f {
-                    't' => Some("n_false"),
-                    'f' => Some("n_true"),
-                    _ => None,
-                };
-                if let Some(o) = omitted {
-                    if labels.contains_key(o) {
-                        return Err(v(format!("-d -f {} still declares {}", flag, o)));
-                    }
+                if (f == 't' && glv.f.is_some()) || (f == 'f' && glv.t.is_some()) {
+                    return Err(v(format!("-d -f {} still declares the opposite leaf", flag)));
                 }
                 let missing = match f {
                     't' => Some(false),
                     'f' => Some(true),
                     _ => None,
                 };
-                let root: String = if r.is_true() {
-                    "n_true".into()
-                } else if r.is_false() {
-                    "n_false".into()
-                } else {
-                    let rs: Vec<&str> = g.roots().into_iter().filter(|x| *x != "n_true" && *x != "n_false").collect();
-                    if rs.len() != 1 {
-                        return Err(v(format!("-d file has {} roots", rs.len())));
-                    }
-                    rs[0].to_string()
-                };
-                if !(r.is_const() && omitted.is_some()) {
+                if !r.is_const() {
+                    let root = single_root(&g, &glv).map_err(|e| v(format!("-d file: {}", e)))?;
                     for idx in 0..reference_table.len() {
-                        let got = eval_graph(&g, &labels, &root, &idents, idx, missing).map_err(|e| v(format!("-d file: {}", e)))?;
+                        let got = eval_graph(&g, &labels, &glv, &root, &idents, idx, missing).map_err(|e| v(format!("-d file: {}", e)))?;
                         if got != reference_table.get(idx) {
                             return Err(v(format!("-d file (filter {}) evaluates to {} under {:#b}", f, got, idx)));
                         }
